@@ -885,6 +885,9 @@ def ep_quant(prog: Program) -> RuleResult:
         if not comps:
             continue
         ids = comps[0].iter
+        # the values looked up through map(<bindings>.get, ids) / map(lambda i: val[i], ids): the ids are the last argument
+        if isinstance(ids, ast.Call) and isinstance(ids.func, ast.Name) and ids.func.id in ("map", "filter") and len(ids.args) >= 2:
+            ids = ids.args[-1]
         coll = filt = None
         if isinstance(ids, ast.Name):
             # the list built by an explicit loop: ids = []; for v in COLL: if FILTER: ids.append(...)
@@ -974,8 +977,11 @@ def ep_quant(prog: Program) -> RuleResult:
         if isinstance(key, ast.Name) and len(single.get(key.id, [])) == 1:
             key = single[key.id][0]
         for g in [g for x in ast.walk(key) if isinstance(x, (ast.GeneratorExp, ast.ListComp)) for g in x.generators]:
-            if isinstance(g.iter, ast.Name):
-                id_lists.add(g.iter.id)
+            it_ = g.iter
+            if isinstance(it_, ast.Call) and isinstance(it_.func, ast.Name) and it_.func.id in ("map", "filter") and len(it_.args) >= 2:
+                it_ = it_.args[-1]
+            if isinstance(it_, ast.Name):
+                id_lists.add(it_.id)
     walker_vars = set()
     for x in walk_local(f.node):
         if isinstance(x, ast.Assign) and len(x.targets) == 1 and isinstance(x.targets[0], ast.Name) and any(isinstance(y, (ast.Attribute, ast.Constant)) and (getattr(y, "attr", None) == "_child_" or getattr(y, "value", None) == "_child_") for y in ast.walk(x.value)) and \
